@@ -1368,6 +1368,15 @@ func (ex *Exec) doSet(op OpSpec) {
 	switch {
 	case op.N < 0:
 		// nil value deletes
+	case op.K == 2:
+		// a value that recurs: the same bytes every time this (key, size) is
+		// drawn, so that "set v, delete, set v again" and "set v twice" occur
+		val = make([]byte, op.N)
+		for i := range val {
+			val[i] = byte(i*7+len(key)) ^ 0x5a
+		}
+		s := string(val)
+		sv = &s
 	default:
 		val = make([]byte, op.N)
 		for i := range val {
